@@ -857,6 +857,52 @@ def split_tuple_assignments(fn):
   return fn
 
 
+def flat_form(fn):
+  """the statements of a function in normal form, one string per simple
+  statement / compound header (docstrings dropped): the unit in which the
+  distance of a function from its reference shape is measured"""
+  out = []
+
+  def walk(stmts, d):
+    for s in stmts:
+      if isinstance(s, (ast.If, ast.While)):
+        out.append('%sif %s' % (' ' * d, ast.unparse(s.test)))
+        walk(s.body, d + 1)
+        if s.orelse:
+          out.append('%selse' % (' ' * d))
+          walk(s.orelse, d + 1)
+      elif isinstance(s, ast.For):
+        out.append('%sfor %s in %s' % (' ' * d, ast.unparse(s.target),
+                                       ast.unparse(s.iter)))
+        walk(s.body, d + 1)
+      elif isinstance(s, (ast.With, ast.Try)):
+        walk(getattr(s, 'body', []), d + 1)
+        for h in getattr(s, 'handlers', []):
+          walk(h.body, d + 1)
+      elif isinstance(s, ast.FunctionDef):
+        out.append('%sdef %s' % (' ' * d, s.name))
+        walk(s.body, d + 1)
+      elif isinstance(s, ast.Expr) and isinstance(s.value, ast.Constant):
+        pass
+      else:
+        out.append(' ' * d + ast.unparse(s))
+  walk(fn.body, 0)
+  return out
+
+
+def edit_size(modname, qualname, fn):
+  """number of normal-form lines added or removed with respect to the
+  reference shape of the function (None: not a reference function)"""
+  import difflib
+  ref = inventory().get(modname, {}).get(qualname, {}).get('flat')
+  if ref is None:
+    return None
+  cur = flat_form(fn)
+  if cur == ref:
+    return 0
+  return sum(1 for l in difflib.ndiff(ref, cur) if l[:1] in '+-')
+
+
 # ---------------------------------------------------------------------------
 def normalise_module(modname, tree):
   inv = inventory().get(modname)
